@@ -193,3 +193,49 @@ Theorem C13_satisfiable :
   from_disk id_ord FAll (Some 3) ex_tree2 = FdSymlinkTooLarge.
 Proof. exact ex_tree2_ok. Qed.
 Print Assumptions C13_satisfiable.
+
+(* ---- cross-model consistency C13 x C07 x C02 x C01 (proofs/CrossModelExport.v).
+   What export emits for a tree read from disk are VALID, CHECKED model objects:
+   an exported directory XDir i es, viewed as the hashable object
+   [hobj_of_dir i es] = (kind Directory, attrs manifest = dir_manifest es, no
+   raw manifest, id i), passes the generic integrity check of C07
+   (model/Ident.v: check() = Ok), recomputing its hash gives i, and it is the
+   object Directory(entries=es) builds without id; es passes the validators
+   of C02 (model/Dir.v), so that constructor call does not raise; contents
+   carry the hash of C01's blob manifest "blob <len>\0<data>"
+   (model/Hashutil.v), skipped contents that of some data of the given
+   length.  Every hash function, filter, limit and listing order. *)
+From SWH.model Require Ident Hashutil.
+From SWH.proofs Require Import CrossModelExport.
+
+Theorem C13_export_checked : forall (H : bytes -> bytes) ord f limit t m x,
+  (forall p ks, Permutation (ord p ks) ks) -> wf_fs t = true ->
+  from_disk ord f limit t = FdOk m -> In x (export H m) ->
+  match x with
+  | XDir i es =>
+      valid_dir es = true
+      /\ mk_dir_manifest es = DirOk (dir_manifest es)
+      /\ Ident.check H (hobj_of_dir i es) = Ident.Ok tt
+      /\ Ident.compute_hash H (hobj_of_dir i es) = Ident.Ok i
+      /\ Ident.construct H Ident.KDirectory (Some (dir_manifest es)) (Some None) [] = Ident.Ok (hobj_of_dir i es)
+      /\ i = dir_id H es
+  | XContent i d => i = H (Hashutil.blob_manifest d)
+  | XSkipped i l => exists d, i = H (Hashutil.blob_manifest d) /\ l = lenN d
+  end.
+Proof. exact export_checked. Qed.
+Print Assumptions C13_export_checked.
+
+(* the check / recomputation / id clauses hold for the export of EVERY Merkle
+   tree, read from disk or not (no validity of the entries is claimed then) *)
+Theorem C13_export_objects_checked : forall (H : bytes -> bytes) m x, In x (export H m) ->
+  match x with
+  | XDir i es =>
+      Ident.check H (hobj_of_dir i es) = Ident.Ok tt
+      /\ Ident.compute_hash H (hobj_of_dir i es) = Ident.Ok i
+      /\ Ident.construct H Ident.KDirectory (Some (dir_manifest es)) (Some None) [] = Ident.Ok (hobj_of_dir i es)
+      /\ i = dir_id H es
+  | XContent i d => i = H (Hashutil.blob_manifest d)
+  | XSkipped i l => exists d, i = H (Hashutil.blob_manifest d) /\ l = lenN d
+  end.
+Proof. exact export_objects_checked. Qed.
+Print Assumptions C13_export_objects_checked.
